@@ -28,6 +28,7 @@ Guard(s, i) ==
     [] op.k = "ren"  -> op.id \in NamesOf(s)
     [] op.k \in {"settag", "deltag"} -> op.id \in NamesOf(s)
     [] op.k = "flush" -> s.queue # <<>>
+    [] op.k = "unused" -> TRUE
     [] OTHER -> FALSE
 
 \* outcomes that leave the modelled behaviour (orphan placeholders, ambiguous
